@@ -336,4 +336,206 @@ theorem gwToks_ident (T : Bytes) (id : Ident) (hid : IdentSafe id) (ht : TdExact
     · simp only [hh, if_true, dropLit_gw_svc]
     · simp [hh]
 
+/-! ### the XFCC pattern against an XFCC header -/
+
+/-- the last part of the `tail` token as a predicate: `(?:,.*)?$` -/
+def tailB : Bytes → Bool
+  | [] => true
+  | c :: t => c = 44 && t.all (· ≠ 10)
+
+/-- every remainder after a `;URI=` that starts at a position ≥ 1 of the comma-free prefix -/
+def uriSplits : Bytes → List Bytes
+  | [] => []
+  | c :: s => if c = 44 then [] else (match dropLit cUri s with | some r => [r] | none => []) ++ uriSplits s
+
+theorem matchPlus_uri (K : Bytes → Bool) (h : Bytes) :
+    matchPlus (fun b => decide (b ≠ 44)) (fun s => match dropLit cUri s with | some s' => K s' | none => false) h
+      = (uriSplits h).any K := by
+  induction h with
+  | nil => rfl
+  | cons c s ih =>
+    simp only [matchPlus, uriSplits]
+    by_cases hc : c = 44
+    · simp [hc]
+    · simp only [hc, ne_eq, not_false_eq_true, decide_true, Bool.true_and, if_false, List.any_append, ih]
+      cases dropLit cUri s <;> simp
+
+/-- what follows the first element of an XFCC header -/
+def xfccRest : List XElem → Bytes
+  | [] => []
+  | e :: es => 44 :: xfccHeader (e :: es)
+
+theorem xfccHeader_cons (e : XElem) (es : List XElem) :
+    xfccHeader (e :: es) = e.pre ++ cUri ++ spiffe e.uri ++ xfccRest es := by
+  cases es with
+  | nil => simp [xfccHeader, xfccElem, xfccRest]
+  | cons e' es => simp [xfccHeader, xfccElem, xfccRest, List.append_assoc]
+
+theorem tailB_rest (es : List XElem) (h : 10 ∉ xfccRest es) : tailB (xfccRest es) = true := by
+  cases es with
+  | nil => rfl
+  | cons e es =>
+    simp only [xfccRest, tailB, decide_true, Bool.true_and, List.all_eq_true, decide_eq_true_eq]
+    intro b hb e'
+    apply h
+    simp only [xfccRest, List.mem_cons]
+    exact Or.inr (e' ▸ hb)
+
+/-- exact name, then `(?:,.*)?$` -/
+theorem lit_then_tail (l x T : Bytes) (hl : 44 ∉ l) (hx : 44 ∉ x) (hT : tailB T = true) :
+    (match dropLit l (x ++ T) with | some r => tailB r | none => false) = decide (x = l) := by
+  induction l generalizing x with
+  | nil =>
+    cases x with
+    | nil => simp [dropLit, hT]
+    | cons c x =>
+      have : c ≠ 44 := by intro h; apply hx; simp [h]
+      simp [dropLit, tailB, this]
+  | cons a l ih =>
+    have ha : a ≠ 44 := by intro h; apply hl; simp [h]
+    have hl' : 44 ∉ l := fun h => hl (List.mem_cons_of_mem _ h)
+    cases x with
+    | nil =>
+      cases T with
+      | nil => simp [dropLit]
+      | cons t T =>
+        simp only [tailB, Bool.and_eq_true, decide_eq_true_eq] at hT
+        have : ¬ a = t := by rw [hT.1]; exact ha
+        simp [dropLit, this]
+    | cons c x =>
+      have hx' : 44 ∉ x := fun h => hx (List.mem_cons_of_mem _ h)
+      simp only [List.cons_append, dropLit]
+      by_cases hac : a = c
+      · have := ih x hl' hx'
+        simp [hac, this]
+      · have : ¬ c = a := fun e => hac e.symm
+        simp [hac, this]
+
+theorem matchToks_tail (t : Bytes) : matchToks [Tok.tail] t = tailB t := by
+  cases t <;> simp [matchToks, tailB]
+
+theorem last_tok_tail (s : Src) (name T : Bytes) (hn : 47 ∉ name) (hn0 : name ≠ []) (hc : 44 ∉ name)
+    (hsc : 44 ∉ s.name) (hT : tailB T = true) :
+    matchToks [if s.name = star then Tok.seg else Tok.lit s.name, Tok.tail] (name ++ T)
+      = (decide (s.name = star) || decide (name = s.name)) := by
+  by_cases hs : s.name = star
+  · simp only [hs, if_true, decide_true, Bool.true_or]
+    show matchPlus (fun b => decide (b ≠ 47)) (matchToks [Tok.tail]) (name ++ T) = true
+    -- take exactly `name`
+    have key : ∀ (x : Bytes), x ≠ [] → 47 ∉ x →
+        matchPlus (fun b => decide (b ≠ 47)) (matchToks [Tok.tail]) (x ++ T) = true := by
+      intro x
+      induction x with
+      | nil => intro h; exact absurd rfl h
+      | cons c x ih =>
+        intro _ hx
+        have hc' : c ≠ 47 := by intro h; apply hx; simp [h]
+        have hx' : 47 ∉ x := fun h => hx (List.mem_cons_of_mem _ h)
+        cases x with
+        | nil => simp [matchPlus, hc', matchToks_tail, hT]
+        | cons d x =>
+          have := ih (by simp) hx'
+          simp only [List.cons_append] at this ⊢
+          rw [matchPlus]
+          simp only [hc', ne_eq, not_false_eq_true, decide_true, Bool.true_and, this, Bool.or_true]
+    exact key name hn0 hn
+  · simp only [hs, if_false, decide_false, Bool.false_or, matchToks]
+    have := lit_then_tail s.name name T hsc hc hT
+    cases hd : dropLit s.name (name ++ T) with
+    | none => simpa [hd] using this
+    | some r =>
+      simp only [hd] at this ⊢
+      rw [← this]
+      cases r <;> simp [tailB]
+
+theorem svc_tail_x (s : Src) (dc name T : Bytes) (hdc : 47 ∉ dc) (hdc0 : dc ≠ []) (hn : 47 ∉ name) (hn0 : name ≠ [])
+    (hc : 44 ∉ name) (hsc : 44 ∉ s.name) (hT : tailB T = true) :
+    matchToks [Tok.seg, Tok.lit cSvc, if s.name = star then Tok.seg else Tok.lit s.name, Tok.tail] (dc ++ cSvc ++ name ++ T)
+      = (decide (s.name = star) || decide (name = s.name)) := by
+  have e : dc ++ cSvc ++ name ++ T = dc ++ 47 :: ([115, 118, 99, 47] ++ (name ++ T)) := by simp [cSvc, List.append_assoc]
+  rw [e]
+  show matchPlus (fun b => decide (b ≠ 47))
+    (matchToks [Tok.lit cSvc, if s.name = star then Tok.seg else Tok.lit s.name, Tok.tail]) _ = _
+  rw [matchPlus_seg _ _ dc _ hdc hdc0]
+  · have e2 : (47 :: ([115, 118, 99, 47] ++ (name ++ T)) : Bytes) = cSvc ++ (name ++ T) := by simp [cSvc]
+    rw [e2]
+    have := last_tok_tail s name T hn hn0 hc hsc hT
+    simp only [matchToks, dropLit_append] at this ⊢
+    exact this
+  · intro t ht
+    simp only [matchToks] at ht
+    cases t with
+    | nil => simp [cSvc, dropLit] at ht
+    | cons b t =>
+      by_cases hb : b = 47
+      · exact ⟨t, by rw [hb]⟩
+      · have : ¬ (47 = b) := fun e => hb e.symm
+        simp [cSvc, dropLit, this] at ht
+
+/-- the caller's service name contains no comma (a comma is where `(?:,.*)?$` lets the pattern end) -/
+def identNoComma : Ident → Prop
+  | .svc _ _ _ _ name => 44 ∉ name
+  | _ => True
+
+/-- the body of the XFCC pattern against `URI ++ rest of the header` -/
+theorem idBody_tail (s : Src) (id : Ident) (T : Bytes) (hid : IdentSafe id) (ht : TdExact s.td (identTd id))
+    (hsap : 47 ∉ apName (srcAp s)) (hc : identNoComma id) (hsc : 44 ∉ s.name) (hT : tailB T = true) :
+    matchToks (idToksBody s ++ [Tok.tail]) (spiffe id ++ T) = identM s id := by
+  cases id with
+  | raw _ => exact absurd hid (by simp [IdentSafe])
+  | gw td dc =>
+    have ht' : TdExact s.td td := ht
+    obtain ⟨h1, _, _⟩ := hid
+    rw [spiffe_gw_safe td dc h1]
+    simp only [idToksBody, List.cons_append, List.nil_append, matchToks, List.append_assoc, dropLit_append,
+      dropHost_len _ _ _ ht'.len, identM]
+    by_cases hh : hostEq s.td td = true
+    · simp only [hh, if_true, dropLit_ns_gw]
+    · simp [hh]
+  | svc td ap ns dc name =>
+    have ht' : TdExact s.td td := ht
+    have hs : SvcSafe ap ns dc name := hid
+    rw [spiffe_svc_safe td ap ns dc name hs]
+    simp only [idToksBody, List.cons_append, List.nil_append, matchToks, List.append_assoc, dropLit_append,
+      dropHost_len _ _ _ ht'.len]
+    by_cases hh : hostEq s.td td = true
+    · have htd : s.td = td := ht'.exact hh
+      simp only [hh, if_true, svcPath]
+      have e : apSeg ap ++ cNs ++ ns ++ cDc ++ dc ++ cSvc ++ name ++ T
+          = apSeg ap ++ cNs ++ ns ++ cDc ++ (dc ++ cSvc ++ name ++ T) := by simp [List.append_assoc]
+      have e0 : apSeg ap ++ (cNs ++ (ns ++ (cDc ++ (dc ++ (cSvc ++ (name ++ T))))))
+          = apSeg ap ++ cNs ++ ns ++ cDc ++ (dc ++ cSvc ++ name ++ T) := by simp [List.append_assoc]
+      rw [e, dropLit_path (srcAp s) ap ns _ hsap hs.apOk hs.nsOk]
+      by_cases hcnd : apSeg ap = apSeg (srcAp s) ∧ ns = cDefault
+      · simp only [hcnd, and_self, if_true]
+        have := svc_tail_x s dc name T hs.dcOk hs.dcNe hs.nameOk hs.nameNe hc hsc hT
+        simp only [matchToks] at this
+        rw [this]
+        simp [identM, htd, hcnd.1, hcnd.2]
+      · simp only [hcnd, if_false]
+        simp only [identM]
+        by_cases h1 : apSeg ap = apSeg (srcAp s)
+        · have : ¬ ns = cDefault := fun h2 => hcnd ⟨h1, h2⟩
+          simp [this]
+        · simp [h1]
+    · have htd : ¬ td = s.td := by
+        intro e; apply hh; rw [e]; exact hostEq_refl _
+      simp [hh, identM, htd]
+
+/-- the XFCC pattern of a source against an XFCC header whose first element carries `;URI=`
+    exactly where its URI starts: it matches iff that URI belongs to the source -/
+theorem xfccToks_header (s : Src) (e : XElem) (es : List XElem) (hid : IdentSafe e.uri)
+    (ht : TdExact s.td (identTd e.uri)) (hsap : 47 ∉ apName (srcAp s)) (hc : identNoComma e.uri) (hsc : 44 ∉ s.name)
+    (hsplit : uriSplits (xfccHeader (e :: es)) = [spiffe e.uri ++ xfccRest es]) (hnl : 10 ∉ xfccRest es) :
+    matchToks (xfccToks s) (xfccHeader (e :: es)) = identM s e.uri := by
+  have hT := tailB_rest es hnl
+  show matchPlus (fun b => decide (b ≠ 44))
+    (matchToks ([Tok.lit cUri] ++ idToksBody s ++ [Tok.tail])) (xfccHeader (e :: es)) = _
+  have hk : matchToks ([Tok.lit cUri] ++ idToksBody s ++ [Tok.tail])
+      = fun t => match dropLit cUri t with | some s' => matchToks (idToksBody s ++ [Tok.tail]) s' | none => false := by
+    funext t; rfl
+  rw [hk, matchPlus_uri, hsplit]
+  simp only [List.any_cons, List.any_nil, Bool.or_false]
+  exact idBody_tail s e.uri _ hid ht hsap hc hsc hT
+
 end CV.Rbac
